@@ -83,8 +83,7 @@ def main(argv=None):
         # witnesses of passing paths: the symbolic prediction must equal the real run
         for wsc in out.witnesses[: (10 if tier == "thorough" else 3)]:
             try:
-                obs = real.run_script(wsc)
-                d = real.compare(wsc["predicted"], obs)
+                obs, d = real.run_and_compare(wsc)
             except Exception as ex:
                 d = ["replay crashed: %r" % (ex,)]
             if d:
@@ -92,7 +91,8 @@ def main(argv=None):
             else:
                 validated += 1
                 if len(samples) < 6:
-                    samples.append(dict(obligation=name, witness_commands=[a for a in wsc["script"] if a[0] == "deliver"][-2:],
+                    one = wsc["multi"][0] if "multi" in wsc else wsc
+                    samples.append(dict(obligation=name, witness_commands=[a for a in one["script"] if a[0] == "deliver"][-2:],
                                         real_observation=obs["obs"][:4]))
         # counterexamples: replay on real sqlite before believing them
         seen = set()
@@ -166,8 +166,7 @@ def confirm(real, pid, obname, f, write=True):
     if not sc:
         return dict(status="unconfirmed", why=f.get("script_error", "no script"))
     try:
-        obs = real.run_script(sc)
-        d = real.compare(sc["predicted"], obs)
+        obs, d = real.run_and_compare(sc)
     except Exception as ex:
         return dict(status="unconfirmed", why="replay crashed: %r\n%s" % (ex, traceback.format_exc(limit=5)))
     if d:
@@ -178,7 +177,8 @@ def confirm(real, pid, obname, f, write=True):
         os.makedirs(os.path.dirname(path), exist_ok=True)
         json.dump(dict(property=pid, obligation=obname, assertion=f["assertion"], replay=sc,
                        real_observation=obs), open(path, "w"), indent=1, default=str)
-    cmds = [a for a in sc["script"] if a[0] in ("deliver", "prune", "expire", "restart", "disconnect") and
+    one = sc["multi"][-1] if "multi" in sc else sc
+    cmds = [a for a in one["script"] if a[0] in ("deliver", "prune", "expire", "restart", "disconnect") and
             (len(a) < 4 or a[-1] == "step")]
     return dict(status="confirmed", replay=path, assertion=f["assertion"], obligation=obname,
                 summary="commands %s -> observed %s" % (json.dumps(cmds)[:300], json.dumps(obs["obs"])[:300]))
@@ -188,8 +188,7 @@ def replay_file(path):
     from sx import real
     d = json.load(open(path))
     sc = d["replay"]
-    obs = real.run_script(sc)
-    diffs = real.compare(sc["predicted"], obs)
+    obs, diffs = real.run_and_compare(sc)
     print(json.dumps(dict(property=d.get("property"), assertion=d.get("assertion"),
                           reproduces=not diffs, diffs=diffs, observed=obs["obs"]), indent=1, default=str))
     return 1 if not diffs else 2
